@@ -570,7 +570,13 @@ func nativeReplay(prop string, hfs []HarnessFile, vecPath string) (bool, string,
 	case OutAssert:
 		repro = observed == "assert:"+rv.Detail
 	case OutPanic, OutCrash:
-		repro = strings.HasPrefix(observed, "panic:") || strings.HasPrefix(observed, "fatal:")
+		// a panicking goroutine runs its deferred calls first (closing channels, ...), so the harness goroutine
+		// may get to report something before the runtime kills the process: the crash message decides
+		repro = strings.HasPrefix(observed, "panic:") || strings.HasPrefix(observed, "fatal:") ||
+			regexp.MustCompile(`(?m)^panic: `).MatchString(text)
+		if repro && !strings.HasPrefix(observed, "panic:") && !strings.HasPrefix(observed, "fatal:") {
+			observed = "panic (after: " + observed + ")"
+		}
 	case OutUnwind:
 		repro = observed == "hang" || strings.HasPrefix(observed, "fatal:") // runaway loop: timeout or OOM
 	case OutDeadlock:
